@@ -572,6 +572,9 @@ def discrete_SIR(G, test_transmission=_simple_test_transmission_, args=(), test_
         initial_infecteds=[initial_infecteds]
     #else it is assumed to be a list of nodes.
 
+    if initial_recovereds is not None and G.has_node(initial_recovereds):
+        initial_recovereds=[initial_recovereds]
+
     if return_full_data:
         node_history = defaultdict(lambda : ([tmin], ['S']))
         transmissions = []
